@@ -13,6 +13,9 @@ import (
 
 const (
 	s2kParamsZero = 32768
+	// maxIterations is the largest PBKDF2 iteration count accepted in s2kparams. The parameters come from the KDC's
+	// unauthenticated pre-authentication hints: without a bound a reply could keep the client computing for hours.
+	maxIterations = 0x1000000
 )
 
 // DeriveRandom for key derivation as defined in RFC 8009
@@ -68,6 +71,9 @@ func StringToKey(secret, salt, s2kparams string, e etype.EType) ([]byte, error) 
 	i, err := S2KparamsToItertions(s2kparams)
 	if err != nil {
 		return nil, err
+	}
+	if i > maxIterations {
+		return nil, errors.New("Invalid s2kparams, iteration count too large")
 	}
 	return StringToKeyIter(secret, salt, i, e)
 }
